@@ -143,3 +143,34 @@ k_range_suffix1!(k_range_suffix1_u8_u16_p8, u8, u16, u8, 8, 4);
 k_range_suffix1!(k_range_suffix1_u8_u32_p8, u8, u32, u8, 8, 6);
 k_range_suffix1!(k_range_suffix1_u16_u32_p12, u16, u32, u16, 12, 4);
 k_range_suffix1!(k_range_suffix1_u32_u64_p24, u32, u64, u32, 24, 4);
+
+impl<W: Copy + Default, const N: usize> Default for ArrStack<W, N> { fn default() -> Self { ArrStack{words: [W::default(); N], len: 0} } }
+
+macro_rules! k_chain_rt1 {
+    ($name:ident, $W:ty, $S:ty, $Pr:ty, $P:expr) => {
+        #[no_mangle]
+        pub extern "C" fn $name(d0: $W, d1: $W, d2: $W, d3: $W, c1: $Pr, c2: $Pr) -> u32 {
+            use constriction::stream::chain::ChainCoder;
+            let m = Cuts::<$Pr, $P>{c1, c2};
+            if !m.valid() { return 1; }
+            let data = ArrStack::<$W, 8>{words: [d0, d1, d2, d3, 0, 0, 0, 0], len: 4};
+            let mut coder = match ChainCoder::<$W, $S, ArrStack<$W,8>, ArrStack<$W,8>, $P>::from_binary(data) { Ok(c) => c, Err(_) => return 1 };
+            let sym = match coder.decode_symbol(m) { Ok(s) => s, Err(_) => return 1 };
+            let (prefix, suffix) = match coder.into_remainders() { Ok(x) => x, Err(_) => return 2 };
+            let mut coder2 = match ChainCoder::<$W, $S, ArrStack<$W,8>, ArrStack<$W,8>, $P>::from_remainders(suffix) { Ok(c) => c, Err(_) => return 3 };
+            if coder2.encode_symbol(sym, m).is_err() { return 4; }
+            let (p2, s2) = match coder2.into_binary() { Ok(x) => x, Err(_) => return 5 };
+            // prefix ++ p2 ++ s2 == data
+            let mut all = [0 as $W; 24]; let mut n = 0usize;
+            let mut i = 0; while i < prefix.len { all[n] = prefix.words[i]; n += 1; i += 1; }
+            let mut i = 0; while i < p2.len { all[n] = p2.words[i]; n += 1; i += 1; }
+            let mut i = 0; while i < s2.len { all[n] = s2.words[i]; n += 1; i += 1; }
+            if n != 4 { return 6; }
+            if all[0] != d0 || all[1] != d1 || all[2] != d2 || all[3] != d3 { return 7; }
+            0
+        }
+    };
+}
+k_chain_rt1!(k_chain_rt1_u8_u16_p4, u8, u16, u8, 4);
+k_chain_rt1!(k_chain_rt1_u8_u16_p8, u8, u16, u8, 8);
+k_chain_rt1!(k_chain_rt1_u32_u64_p24, u32, u64, u32, 24);
